@@ -153,13 +153,13 @@ Section DriverText.
       (* an output declaration starts with "output ": never with "-" *)
       assert (N : starts_with_minus (render (format_expr_doc O (EOutput e) None)) = false).
       { unfold format_expr_doc. rewrite fmtd_eq. unfold impl_doc.
-        destruct (fits_single _ _ _ _); reflexivity. }
+        match goal with |- context [if ?b then _ else _] => destruct b end; reflexivity. }
       rewrite N, andb_false_r. reflexivity.
     - f_equal. destruct k as [e|e|c0]; [reflexivity| |].
       + unfold protect_minus.
         assert (N : starts_with_minus (render (format_expr_doc O (EOutput e) None)) = false).
         { unfold format_expr_doc. rewrite fmtd_eq. unfold impl_doc.
-          destruct (fits_single _ _ _ _); reflexivity. }
+          match goal with |- context [if ?b then _ else _] => destruct b end; reflexivity. }
         rewrite N, andb_false_r. reflexivity.
       + destruct Hs as [Hk _]. unfold protect_minus. cbn [render render_piece].
         rewrite append_nil_r, (comment_not_minus c0 Hk), andb_false_r. reflexivity.
